@@ -8,6 +8,11 @@ ALL = ["C%02d" % i for i in range(1, 21)]
 
 # pid -> (category, level text, level note, technique, design_ref)
 CHECKS = {
+ "C10": ("proof",
+         "A clause-level builder model of parseCfg/printCfg (Model/Config.v: 28 clause kinds, apply with every duplicate / definition-before-use check and the name-order slices, print in printCfg's order, render of the concrete text). Theorems by induction over every accepted clause list: every reachable state is well formed (c10_reachable_wf); for every reachable state that satisfies the decidable `printable` predicate, replaying the printed clauses from the empty configuration succeeds with an explicit canonical state that is the same play and prints the same text up to one observer's watches (c10_reload_partial); parameters are substituted once, first -D wins. The full reload statement is refuted with five witnesses (the known reload-failure shapes), each replayed on the real code. Tie: 1,500 (thorough 20,000) generated configurations — free layout, comments, continuations, several sections, parameters via -D/defaults, includes — loaded four ways through the real parser/printer; Go-side comparison of acceptance, printed text, exported configuration, steps and hash, and six Coq queries (model first load, model reload, oracle, hypothesis/invariant, rendered text byte for byte).",
+         "Trusted: Coq kernel+VM, harness+hook. Outside the theorem: the lexical layer on the way in (line regexps, white space, continuations, includes), Go's regexp/govaluate/time libraries (oracles: theorems hold for all their values), variable watcher lists, and storyline well-formedness (C06, under its no-control-white-space assumption: story_printable is a hypothesis of the general theorem). Seven reload-failure shapes are known findings.",
+         "Rocq/Coq proof (invariant of the construction + reload of print for printable states) + differential correspondence by vm_compute",
+         "DESIGN.md section 6, C10"),
  "C09": ("proof",
          "Byte-level Coq models of readLine (continuations, EOF rules, include push/pop, depth limit), newSubReader's search, pos.wrapErr with all its slice/index operations, the section dispatch for the simple clauses, the edit splitter, preprocReplace and parseDefines, with Panic and OutOfFuel as real outcomes. Theorems for every file system, search path, -D list and clause-parser behaviour: the reader terminates within an explicit fuel bound (weight argument + depth limit), never indexes out of range, every diagnostic position names an existing file and line, a refused clause is reported at the first physical line of its logical line with the include chain equal to the reader stack, never more than ten readers. Tie: ~4,100 (thorough ~49,500) differential cases per run — grammar-derived texts, their mutations, arbitrary bytes, include graphs (chains, diamonds, cycles, directories, missing files) — through the real parser under a watchdog; any panic or timeout is a property failure; a corpus replays the four repaired defects first.",
          "Trusted: Coq kernel+VM, harness+hook. NOT transcribed: the regexp-dispatched clause parsers, checkIdent, validateStoryLine, compileV2 and govaluate (an arbitrary `judge` function in the model: every theorem holds for all judges); that they neither crash nor loop rests on the differential fuzzing only.",
